@@ -2,4 +2,5 @@ import TinyFlux.Audit.Tool
 import TinyFlux.Props.C15
 import TinyFlux.Props.C15EndToEnd
 import TinyFlux.Props.C15State
+import TinyFlux.Props.C15Witness
 #audit TinyFlux.Props.C15
